@@ -4,7 +4,7 @@ CONSTANTS
   Intents = {"Status", "Login", "Transfer", "next0", "next4"}
   SessClasses = {"absent", "valid", "badjson"}
   CookieClasses = {"absent", "empty", "short", "tagOnly", "tagFlip", "bodyFlip", "otherSecret", "otherIp", "expired", "nonJson", "truncJson", "missingField", "fresh", "justInside", "otherPort"}
-  EncClasses = {"honest", "wrongToken", "staleToken", "otherKey", "garbage", "badSecretLen"}
+  EncClasses = {"honest", "wrongToken", "staleToken", "emptyToken", "prefixToken", "otherKey", "garbage", "badSecretLen"}
   AuthVerdicts = {"same", "other", "err"}
   StatusVerdicts = {"some", "null", "err"}
   Pings = {"p0"}
